@@ -169,6 +169,34 @@ func (d DescribeData) Process() (string, error) {
 
 type DescribeNode = nodes.Struct[string, DescribeData]
 
+// MixData: port names that share prefixes and differ in case (the dependency comparator lower-cases base
+// names and splits at the last dot): VALUE / Vals / Values / Values2, three of them arrays.
+type MixData struct {
+	Values  []nodes.NodeOutput[float64]
+	VALUE   nodes.NodeOutput[float64]
+	Values2 []nodes.NodeOutput[float64]
+	Vals    []nodes.NodeOutput[float64]
+}
+
+func (d MixData) Process() (float64, error) {
+	s := 0.0
+	for i, v := range d.Values {
+		s += float64(i+1) * v.Value() // order-sensitive
+	}
+	for i, v := range d.Values2 {
+		s += float64((i+1)*(i+1)) * v.Value()
+	}
+	for i, v := range d.Vals {
+		s -= float64(3*i+2) * v.Value()
+	}
+	if d.VALUE != nil {
+		s = s*0.25 + d.VALUE.Value()
+	}
+	return s, nil
+}
+
+type MixNode = nodes.Struct[float64, MixData]
+
 type CatData struct {
 	Blobs []nodes.NodeOutput[[]byte]
 }
@@ -208,6 +236,7 @@ func harnessNodesFactory() *refutil.TypeFactory {
 	refutil.RegisterType[JoinNode](f)
 	refutil.RegisterType[DescribeNode](f)
 	refutil.RegisterType[CatNode](f)
+	refutil.RegisterType[MixNode](f)
 	refutil.RegisterTypeWithBuilder(f, newF32Param)
 	refutil.RegisterTypeWithBuilder(f, newStrsParam)
 	return f
@@ -291,6 +320,8 @@ var tyTable = []*tyInfo{
 	{Tag: "text", Key: keyOf[basics.TextNode](), Out: vtArtifact, Artifact: true, Ports: []portInfo{{"In", false, vtStr}}},
 	{Tag: "binary", Key: keyOf[basics.BinaryNode](), Out: vtArtifact, Artifact: true, Ports: []portInfo{{"In", false, vtBytes}}},
 	{Tag: "imageart", Key: keyOf[basics.ImageNode](), Out: vtArtifact, Artifact: true, Ports: []portInfo{{"In", false, vtImage}}},
+	{Tag: "mix", Key: keyOf[MixNode](), Out: vtF64, Ports: []portInfo{
+		{"VALUE", false, vtF64}, {"Vals", true, vtF64}, {"Values", true, vtF64}, {"Values2", true, vtF64}}},
 }
 
 var tagIndex = map[string]int{}
